@@ -347,6 +347,8 @@ static void exec_splice(void)
 	long first;
 
 	env_init();
+	if (mc_arg_int("no_pipe2", 0))
+		env_sc_errno[ENV_SC_PIPE2] = ENOSYS;
 	relay_eof = mc_choose(2, MC_CONFIG, "relay_eof");
 	fk = mc_choose(2, MC_CONFIG, "from-kind");
 	tk = mc_choose(2, MC_CONFIG, "to-kind");
